@@ -389,47 +389,68 @@ def saved(check, prog):
     q = R + '._serialize_as_dataset'
     fd = prog.func(q)
     loc = prog.loc(q, fd)
-    written = set()
-    for n in ast.walk(fd):
-        if isinstance(n, ast.Assign) and isinstance(n.targets[0], ast.Name) and \
-                n.targets[0].id == 'attrs' and isinstance(n.value, ast.List):
-            written |= {e.value for e in n.value.elts if isinstance(e, ast.Constant)}
-        if isinstance(n, ast.Assign) and isinstance(n.targets[0], ast.Subscript) and \
-                isinstance(n.targets[0].value, ast.Name) and \
-                n.targets[0].value.id == 'attrs' and \
-                isinstance(n.targets[0].slice, ast.Constant):
-            written.add(n.targets[0].slice.value)
+    it = Interp(prog, max_depth=1, opaque=['holopy.core.io.io.pack_attrs'])
+    res = it.analyze(q)
+    # the mapping finally stored as the dataset's .attrs
+    stores = [e for e in it.effects if e['kind'] == 'setattr' and e['attr'] == 'attrs'
+              and e['value'][0] == 'copy' and
+              any(x[0] == 'dict' for x in subterms(e['value']))]
+    written = {}
+    if stores:
+        t = stores[-1]['value'][2]
+        while t[0] == 'upd':
+            if t[3][0] == 'const':
+                written.setdefault(t[3][1], t[4])
+            t = t[1]
+        if t[0] == 'dict':
+            for k, v in t[1]:
+                if k[0] == 'call' and k[1] == 'str' and k[2][0][0] == 'const':
+                    k = k[2][0]
+                if k[0] == 'const':
+                    written.setdefault(k[1], v)
     q2 = R + '._unserialize'
     fd2 = prog.func(q2)
-    read = set()
-    for n in ast.walk(fd2):
-        if isinstance(n, ast.Subscript) and ast.unparse(n.value) == 'dataset.attrs' and \
-                isinstance(n.slice, ast.Constant):
-            read.add(n.slice.value)
+    it2 = Interp(prog, max_depth=1, opaque=['holopy.core.io.io.unpack_attrs'])
+    res2 = it2.analyze(q2)
+    v = res2.ret
+    dsattrs = intern(('attr', sym(fd2.args.args[1].arg), 'attrs'))
+
+    def keys_read(t):
+        return {x[2][1] for x in subterms(t) if x[0] == 'idx' and x[1] == dsattrs
+                and x[2][0] == 'const'}
+    read = keys_read(v)
     loadfd = prog.func('holopy.core.io.io.load')
-    if '_source_class' in ast.unparse(loadfd):
+    if any(isinstance(n, ast.Constant) and n.value == '_source_class'
+           for n in ast.walk(loadfd)):
         read.add('_source_class')
     check.floor('dataset attrs written by FitResult', len(written), 5)
-    check.require(written == read, 'L5-result-keys', 'FitResult dataset attrs',
+    check.require(set(written) == read, 'L5-result-keys', 'FitResult dataset attrs',
                   'keys written %s == keys read' % sorted(written), loc,
                   fail_detail='written %s, read %s' % (sorted(written), sorted(read)))
-    # positional reconstruction: [data, model, strategy, time, kwargs]
-    it = Interp(prog, max_depth=1)
-    res = it.analyze(q2)
-    v = res.ret
-    order = []
-    if v[0] in ('mut', 'list', 'loop'):
-        txt = show(v)
-    src = ast.unparse(fd2)
-    ok = "outlist = [data, model, strategy]" in src and \
-        "outlist.append(yaml.safe_load(dataset.attrs['time']))" in src and \
-        'outlist.append(kwargs)' in src
+    # positional reconstruction: the i-th element of the returned list is rebuilt
+    # from the key that was written from the i-th constructor argument
     owner, ifd = init_of(prog, R)
     params = init_params(ifd)
-    check.require(ok and params[:5] == ['data', 'model', 'strategy', 'time', 'kwargs'],
-                  'L5-result-keys', 'FitResult._unserialize order',
+    ok = v[0] == 'list' and len(v[1]) == 5 and params[:5] == [
+        'data', 'model', 'strategy', 'time', 'kwargs']
+    detail = 'returned value is %s' % show(v)[:120]
+    if ok:
+        for i in (1, 2, 3):
+            wv = written.get(params[i])
+            src_ok = wv is not None and any(
+                x == ('attr', sym('self'), params[i]) for x in subterms(wv))
+            if keys_read(v[1][i]) != {params[i]} or not src_ok:
+                ok = False
+                detail = 'element %d is rebuilt from keys %s (written from %s)' % (
+                    i, sorted(keys_read(v[1][i])), show(wv)[:60] if wv else None)
+        if keys_read(v[1][4]) != {'_kwargs'} or keys_read(v[1][0]):
+            ok = False
+            detail = 'data / kwargs elements read %s / %s' % (
+                sorted(keys_read(v[1][0])), sorted(keys_read(v[1][4])))
+    check.require(ok, 'L5-result-keys', 'FitResult._unserialize order',
                   'arguments are rebuilt in the constructor\'s order '
-                  '(data, model, strategy, time, kwargs)', prog.loc(q2, fd2))
+                  '(data, model, strategy, time, kwargs)', prog.loc(q2, fd2),
+                  fail_detail=detail)
     # serialising does not modify the result
     it = Interp(prog, max_depth=1, opaque=['holopy.core.io.io.pack_attrs'])
     res = it.analyze(q)
